@@ -69,6 +69,8 @@ func stubIntrinsic(in *Interp, th *Thread, fn *ssa.Function, a []Value) (Value, 
 		k := in.decide("choose:"+in.strArg(a[0]), n)
 		in.chooses = append(in.chooses, k)
 		return tb.Const(uint64(k), 64), stDone
+	case "symConcrete":
+		return in.tb.Const(uint64(in.concretize(in.intTerm(a[0]), "symConcrete")), 64), stDone
 	case "symParam":
 		nm := in.strArg(a[0])
 		if v, ok := in.params[nm]; ok {
